@@ -10,14 +10,18 @@ package main
 // Observation (instants in ns since just before Engine.Run was called, monotonic clock):
 //
 //	k=<number of Bind calls> err=<nil|ctx|other> end=<ns> mstart=<Metrics.InstanceStart> fails=<failed gun creations> total=<tokens of the startup profile>
-//	toks=<tokens handed out by the startup schedule> ctoks=<token offsets of a drained copy of the startup schedule>
-//	binds=<InstanceID:instant,...> (in call order) exits=<instants of gun Close, sorted> cuts=<ammo|rps|cancel|fail:first instant,...>
+//	started=<the `started` result of startInstances, from the pool's debug log; -1 = not seen> starterr=<nil|ctx|other|?> running=<bound guns never closed>
+//	ids=<InstanceIDs seen by Bind, sorted> toks=<tokens handed out by the startup schedule> picks=<instants at which they were handed out>
+//	ctoks=<token offsets of a drained copy of the startup schedule> guns=<instants of the NewGun calls after the warm-up gun>
+//	binds=<InstanceID:instant,...> (in call order) exits=<InstanceID:instant of gun Close:reason,...> (by instant; reason = sched|ammo|ctx|err|? from the
+//	pool's debug log "Instance run awaited") cuts=<ammo|rps|cancel|fail:first instant,...> jitter=<largest oversleep of a 5 ms heartbeat, ns>
 
 import (
 	"context"
 	"errors"
 	"fmt"
 	"math/rand"
+	"os"
 	"sort"
 	"strconv"
 	"strings"
@@ -32,14 +36,18 @@ import (
 	"github.com/yandex/pandora/core/provider"
 	"github.com/yandex/pandora/core/schedule"
 	"go.uber.org/zap"
+	"go.uber.org/zap/zapcore"
+	"go.uber.org/zap/zaptest/observer"
 )
 
 type rec struct {
 	clk   *trec.Clock
 	mu    sync.Mutex
 	toks  []int64
+	picks []int64
+	guns  []int64
 	binds [][2]int64
-	exits []int64
+	exits [][2]int64 // id, instant of Close
 	cuts  map[string]int64
 	fails int
 }
@@ -63,8 +71,10 @@ func (s *startSched) Next() (time.Time, bool) {
 	ts, ok := s.Schedule.Next()
 	if ok {
 		t := s.r.clk.Of(ts)
+		now := s.r.clk.Now()
 		s.r.mu.Lock()
 		s.r.toks = append(s.r.toks, t)
+		s.r.picks = append(s.r.picks, now)
 		s.r.mu.Unlock()
 	}
 	return ts, ok
@@ -109,10 +119,12 @@ func (p *recProvider) Acquire() (core.Ammo, bool) {
 type recGun struct {
 	r    *rec
 	resp time.Duration
+	id   int64
 }
 
 func (g *recGun) Bind(_ core.Aggregator, deps core.GunDeps) error {
 	t := g.r.clk.Now()
+	g.id = int64(deps.InstanceID)
 	g.r.mu.Lock()
 	g.r.binds = append(g.r.binds, [2]int64{int64(deps.InstanceID), t})
 	g.r.mu.Unlock()
@@ -128,7 +140,7 @@ func (g *recGun) Shoot(core.Ammo) {
 func (g *recGun) Close() error {
 	t := g.r.clk.Now()
 	g.r.mu.Lock()
-	g.r.exits = append(g.r.exits, t)
+	g.r.exits = append(g.r.exits, [2]int64{g.id, t})
 	g.r.mu.Unlock()
 	return nil
 }
@@ -216,6 +228,12 @@ func run(input string) string {
 			n := gunCalls
 			gunCalls++
 			gunMu.Unlock()
+			if n >= 0 {
+				t := r.clk.Now()
+				r.mu.Lock()
+				r.guns = append(r.guns, t)
+				r.mu.Unlock()
+			}
 			if n >= 0 && n == failgun {
 				r.cut("fail")
 				r.mu.Lock()
@@ -223,7 +241,7 @@ func run(input string) string {
 				r.mu.Unlock()
 				return nil, errors.New("gun cannot be created")
 			}
-			return &recGun{r: r, resp: resp}, nil
+			return &recGun{r: r, resp: resp, id: -1}, nil
 		},
 		RPSPerInstance: m["perinst"] == "1",
 		NewRPSSchedule: func() (core.Schedule, error) {
@@ -232,9 +250,28 @@ func run(input string) string {
 		StartupSchedule: &startSched{Schedule: buildProfile(m["startup"]), r: r},
 	}
 	met := trec.Metrics()
-	eng := engine.New(zap.NewNop(), met, engine.Config{Pools: []engine.InstancePoolConfig{conf}})
+	obsCore, logs := observer.New(zapcore.DebugLevel)
+	eng := engine.New(zap.New(obsCore), met, engine.Config{Pools: []engine.InstancePoolConfig{conf}})
 	ctx, cancel := context.WithCancel(context.Background())
 	defer cancel()
+	// heartbeat: how badly is this process being scheduled while the case runs?
+	var jitter int64
+	hbStop := make(chan struct{})
+	hbDone := make(chan struct{})
+	go func() {
+		defer close(hbDone)
+		for {
+			t0 := time.Now()
+			select {
+			case <-hbStop:
+				return
+			case <-time.After(5 * time.Millisecond):
+			}
+			if over := int64(time.Since(t0) - 5*time.Millisecond); over > jitter {
+				jitter = over
+			}
+		}
+	}()
 	r.clk = trec.NewClock()
 	if c, ok := m["cancel"]; ok {
 		ms, _ := strconv.ParseInt(c, 10, 64)
@@ -252,6 +289,8 @@ func run(input string) string {
 	err := eng.Run(ctx)
 	end := r.clk.Now()
 	eng.Wait()
+	close(hbStop)
+	<-hbDone
 	e := "nil"
 	if err != nil {
 		if ctx.Err() != nil {
@@ -260,27 +299,76 @@ func run(input string) string {
 			e = "other"
 		}
 	}
+	// what the pool logged about the start loop and the instances
+	started, starterr := int64(-1), "?"
+	reason := map[int64]string{}
+	classify := func(v any) string {
+		msg, _ := v.(string)
+		switch {
+		case v == nil || msg == "":
+			return "nil"
+		case strings.Contains(msg, "context canceled") || strings.Contains(msg, "deadline exceeded"):
+			return "ctx"
+		case strings.Contains(msg, "Out of ammo"):
+			return "ammo"
+		}
+		return "other"
+	}
+	for _, en := range logs.All() {
+		cm := en.ContextMap()
+		switch en.Message {
+		case "Instances start awaited":
+			if v, ok := cm["started"].(int64); ok {
+				started = v
+			}
+			starterr = classify(cm["error"])
+		case "Instance run awaited":
+			if id, ok := cm["id"].(int64); ok {
+				switch classify(cm["error"]) {
+				case "nil":
+					reason[id] = "sched"
+				case "ctx":
+					reason[id] = "ctx"
+				case "ammo":
+					reason[id] = "ammo"
+				default:
+					reason[id] = "err"
+				}
+			}
+		}
+	}
 	r.mu.Lock()
 	defer r.mu.Unlock()
 	var binds []string
+	var ids []int64
 	for _, b := range r.binds {
 		binds = append(binds, fmt.Sprintf("%d:%d", b[0], b[1]))
+		ids = append(ids, b[0])
 	}
-	sort.Slice(r.exits, func(i, j int) bool { return r.exits[i] < r.exits[j] })
+	sort.Slice(ids, func(i, j int) bool { return ids[i] < ids[j] })
+	sort.Slice(r.exits, func(i, j int) bool { return r.exits[i][1] < r.exits[j][1] })
+	var exits []string
+	for _, x := range r.exits {
+		rs, ok := reason[x[0]]
+		if !ok {
+			rs = "?"
+		}
+		exits = append(exits, fmt.Sprintf("%d:%d:%s", x[0], x[1], rs))
+	}
 	var cuts []string
 	for _, k := range []string{"ammo", "rps", "cancel", "fail"} {
 		if t, ok := r.cuts[k]; ok {
 			cuts = append(cuts, fmt.Sprintf("%s:%d", k, t))
 		}
 	}
-	return fmt.Sprintf("k=%d err=%s end=%d mstart=%d fails=%d total=%d toks=%s ctoks=%s binds=%s exits=%s cuts=%s",
-		len(r.binds), e, end, met.InstanceStart.Get(), r.fails, len(ctoks), joinInts(r.toks), joinInts(ctoks),
-		strings.Join(binds, ","), joinInts(r.exits), strings.Join(cuts, ","))
+	return fmt.Sprintf("k=%d err=%s end=%d mstart=%d fails=%d total=%d started=%d starterr=%s running=%d ids=%s toks=%s picks=%s ctoks=%s guns=%s binds=%s exits=%s cuts=%s jitter=%d",
+		len(r.binds), e, end, met.InstanceStart.Get(), r.fails, len(ctoks), started, starterr, len(r.binds)-len(r.exits), joinInts(ids),
+		joinInts(r.toks), joinInts(r.picks), joinInts(ctoks), joinInts(r.guns), strings.Join(binds, ","), strings.Join(exits, ","), strings.Join(cuts, ","), jitter)
 }
 
 // startup profiles with every token at a multiple of 1 s (so that causes can be placed 500 ms away from every token)
 func genStartup(r *rand.Rand) string {
-	switch r.Intn(5) {
+	switch r.Intn(8) {
 	case 0:
 		return fmt.Sprintf("once:%d", 1+r.Intn(5))
 	case 1:
@@ -291,9 +379,61 @@ func genStartup(r *rand.Rand) string {
 		return fmt.Sprintf("step:%d:%d:%d:1000", f, f+st*(1+r.Intn(3))+r.Intn(st), st)
 	case 3:
 		return fmt.Sprintf("once:%d+const:0:%d+once:%d", 1+r.Intn(3), 1000*(1+r.Intn(2)), 1+r.Intn(3))
-	default:
+	case 4:
 		return fmt.Sprintf("step:1:%d:1:1000+const:1:2000", 2+r.Intn(3))
+	case 5:
+		return fmt.Sprintf("const:1:%d+step:0:%d:1:1000", 1000*(1+r.Intn(2)), 1+r.Intn(2))
+	case 6:
+		return fmt.Sprintf("const:0:1000+once:%d+const:0:1000+step:1:%d:2:1000", 1+r.Intn(2), 3+r.Intn(3))
+	default:
+		return fmt.Sprintf("once:%d+const:1:%d", 1+r.Intn(2), 1000*(1+r.Intn(3)))
 	}
+}
+
+// freer profiles: any spacing, more instances (counts near a cause are inconclusive; ids / not-ahead / never-reduced are not)
+func genStartupFree(r *rand.Rand) string {
+	n := 1 + r.Intn(3)
+	var ps []string
+	for i := 0; i < n; i++ {
+		switch r.Intn(4) {
+		case 0:
+			ps = append(ps, fmt.Sprintf("once:%d", 1+r.Intn(8)))
+		case 1:
+			ps = append(ps, fmt.Sprintf("const:%d:%d", r.Intn(6), 200*(1+r.Intn(8))))
+		case 2:
+			f := r.Intn(4)
+			st := 1 + r.Intn(4)
+			ps = append(ps, fmt.Sprintf("step:%d:%d:%d:%d", f, f+r.Intn(4*st+1), st, 100*(1+r.Intn(6))))
+		default:
+			ps = append(ps, fmt.Sprintf("const:0:%d", 100*(1+r.Intn(10))))
+		}
+	}
+	return strings.Join(ps, "+")
+}
+
+func withCause(r *rand.Rand, su string, kind, cutAt int) string {
+	switch kind {
+	case 0: // nothing cuts: RPS long enough for every profile generated here (<= 6 s)
+		return fmt.Sprintf("startup=%s rps=const:10:7500 ammo=0 resp=0", su)
+	case 1: // shared RPS ends: its last token is drawn around cutAt ms (instances draw ahead)
+		return fmt.Sprintf("startup=%s rps=const:20:%d ammo=0 resp=0", su, cutAt+200)
+	case 2: // ammo: 20 rps, the last ammo is shot at about cutAt ms
+		return fmt.Sprintf("startup=%s rps=const:20:12000 ammo=%d resp=0", su, cutAt/50+1)
+	case 3:
+		return fmt.Sprintf("startup=%s rps=const:10:12000 ammo=0 resp=%d cancel=%d", su, []int{0, 20}[r.Intn(2)], cutAt)
+	case 4:
+		return fmt.Sprintf("startup=%s rps=const:10:12000 ammo=0 resp=0 failgun=%d cancel=7000", su, r.Intn(5))
+	case 5: // per-instance RPS profiles that end while the startup goes on: that ends instances, not instance start
+		return fmt.Sprintf("startup=%s rps=const:10:%d perinst=1 ammo=0 resp=0", su, 300+100*r.Intn(10))
+	default: // per-instance RPS profiles, ammo runs out
+		return fmt.Sprintf("startup=%s rps=const:20:12000 perinst=1 ammo=%d resp=0", su, cutAt/50+1)
+	}
+}
+
+var gridProfiles = []string{
+	"once:1", "once:3", "const:1:3000", "step:0:4:2:1000", "step:1:3:1:1000", "step:2:7:3:1000",
+	"once:2+const:0:1000+once:2", "once:1+const:0:2000+once:1+const:0:1000+once:2", "step:1:2:1:1000+const:1:2000",
+	"const:1:2000+step:0:2:1:1000", "const:0:1000+once:2", "step:0:2:1:1000+once:2",
 }
 
 func gen(r *rand.Rand, tier string) []string {
@@ -305,44 +445,68 @@ func gen(r *rand.Rand, tier string) []string {
 		"startup=step:0:6:2:400 rps=const:10:2500 ammo=0 resp=0",
 		"startup=once:2+const:0:500+once:2 rps=const:20:1500 ammo=0 resp=0",
 		"startup=step:2:5:3:500+const:2:1000 rps=const:10:3000 ammo=0 resp=0",
+		"startup=const:2:1000+step:0:4:2:300+once:1 rps=const:10:3000 ammo=0 resp=0",
+		"startup=const:0:700+once:3 rps=const:10:2000 ammo=0 resp=0",
+		"startup=step:10:40:10:200 rps=const:100:2000 ammo=0 resp=0",
+		// an empty profile: nothing to start
+		"startup=const:0:300 rps=const:5:500 ammo=0 resp=0",
+		// per-instance RPS profiles: their end finishes the instance, never instance start
 		"startup=const:2:1500 rps=const:5:1000 perinst=1 ammo=0 resp=0",
+		"startup=step:1:4:1:500 rps=const:10:300 perinst=1 ammo=0 resp=0",
+		"startup=once:2+const:0:1000+once:2 rps=const:20:10000 perinst=1 ammo=25 resp=0",
 		// shared RPS profile ends inside / before the startup window
 		"startup=const:1:4000 rps=const:10:1550 ammo=0 resp=0",
 		"startup=const:1:3000 rps=once:3 ammo=0 resp=0",
 		"startup=step:1:5:1:1000 rps=const:10:2850 ammo=0 resp=0",
+		"startup=once:1+const:0:1000+once:1+const:0:1000+once:1 rps=const:10:1600 ammo=0 resp=0",
 		// ammo runs out inside / before / after the startup window
 		"startup=const:1:4000 rps=const:10:10000 ammo=15 resp=0",
 		"startup=const:1:3000 rps=const:10:10000 ammo=1 resp=0",
 		"startup=const:4:1000 rps=const:10:10000 ammo=20 resp=0",
 		"startup=once:1+const:0:1000+once:2 rps=const:10:10000 ammo=5 resp=0",
-		// run cancelled inside / before / after
+		"startup=step:1:9:2:1000 rps=const:20:10000 ammo=31 resp=5",
+		// run cancelled inside / before / after; during the very first Wait
 		"startup=const:1:4000 rps=const:10:10000 ammo=0 resp=0 cancel=1500",
 		"startup=once:3 rps=const:10:10000 ammo=0 resp=0 cancel=0",
 		"startup=once:3 rps=const:10:10000 ammo=0 resp=0 cancel=800",
 		"startup=step:1:9:2:1000 rps=const:10:10000 ammo=0 resp=0 cancel=2500",
-		// a gun cannot be created: first instance, a later one
+		"startup=const:0:1000+once:2 rps=const:10:10000 ammo=0 resp=0 cancel=400",
+		"startup=step:0:4:2:1000+once:1 rps=const:10:10000 ammo=0 resp=20 cancel=1500",
+		// a gun cannot be created: the first (synchronous) instance, a later one; in composites and instance_step
 		"startup=once:3 rps=const:10:1000 ammo=0 resp=0 failgun=0",
 		"startup=const:2:2000 rps=const:10:10000 ammo=0 resp=0 failgun=2",
+		"startup=step:1:5:2:1000 rps=const:10:10000 ammo=0 resp=0 failgun=1",
+		"startup=once:1+const:0:1000+once:2 rps=const:10:10000 ammo=0 resp=0 failgun=2",
+		"startup=const:0:500+step:0:4:2:500 rps=const:10:10000 ammo=0 resp=0 failgun=0",
 	}
-	n := 12
+	n, nfree := 14, 4
 	if tier == "thorough" {
-		n = 150
+		n, nfree = 700, 500
+		// exhaustive small grid: every profile shape x every cause x every position of the cause
+		for _, su := range gridProfiles {
+			out = append(out, withCause(r, su, 0, 0), withCause(r, su, 5, 0))
+			for _, cutAt := range []int{500, 1500, 2500} {
+				out = append(out, withCause(r, su, 1, cutAt), withCause(r, su, 2, cutAt), withCause(r, su, 6, cutAt),
+					fmt.Sprintf("startup=%s rps=const:10:12000 ammo=0 resp=0 cancel=%d", su, cutAt))
+			}
+			out = append(out, fmt.Sprintf("startup=%s rps=const:10:12000 ammo=0 resp=0 cancel=0", su))
+			for j := 0; j < 4; j++ {
+				out = append(out, fmt.Sprintf("startup=%s rps=const:10:12000 ammo=0 resp=0 failgun=%d cancel=6000", su, j))
+			}
+		}
+		// many instances in a short time
+		for i := 0; i < 40; i++ {
+			st := 5 + r.Intn(20)
+			out = append(out, fmt.Sprintf("startup=step:%d:%d:%d:%d rps=const:%d:%d ammo=%d resp=%d", r.Intn(10), 40+r.Intn(160), st, 20+r.Intn(100),
+				200+r.Intn(400), 1000+r.Intn(2000), []int{0, 0, 300 + r.Intn(600)}[r.Intn(3)], r.Intn(3)))
+		}
 	}
 	for i := 0; i < n; i++ {
-		su := genStartup(r)
-		cutAt := 500 + 1000*r.Intn(4) // ms, 500 ms away from every token (tokens are multiples of 1 s)
-		switch r.Intn(5) {
-		case 0: // nothing cuts: RPS long enough for every profile generated above (<= 5 s)
-			out = append(out, fmt.Sprintf("startup=%s rps=const:10:6500 ammo=0 resp=0", su))
-		case 1: // shared RPS ends: its last token is drawn within [cutAt-100, cutAt+150] ms (up to 6 instances draw ahead)
-			out = append(out, fmt.Sprintf("startup=%s rps=const:20:%d ammo=0 resp=0", su, cutAt+200))
-		case 2: // ammo: 20 rps, the last ammo is shot at cutAt ms
-			out = append(out, fmt.Sprintf("startup=%s rps=const:20:10000 ammo=%d resp=0", su, cutAt/50+1))
-		case 3:
-			out = append(out, fmt.Sprintf("startup=%s rps=const:10:10000 ammo=0 resp=%d cancel=%d", su, []int{0, 20}[r.Intn(2)], cutAt))
-		default:
-			out = append(out, fmt.Sprintf("startup=%s rps=const:10:10000 ammo=0 resp=0 failgun=%d cancel=6000", su, r.Intn(4)))
-		}
+		cutAt := 500 + 1000*r.Intn(5) // ms, 500 ms away from every token (tokens are multiples of 1 s)
+		out = append(out, withCause(r, genStartup(r), r.Intn(7), cutAt))
+	}
+	for i := 0; i < nfree; i++ {
+		out = append(out, withCause(r, genStartupFree(r), r.Intn(7), 100*(1+r.Intn(40))))
 	}
 	return out
 }
@@ -376,15 +540,23 @@ func class(in, obs string) string {
 }
 
 func main() {
+	// the cases mostly sleep: many can run side by side (timing checks are one-sided or margin-guarded, see Spec)
+	workers := 12
+	for i, a := range os.Args {
+		if (a == "-tier" || a == "--tier") && i+1 < len(os.Args) && os.Args[i+1] == "thorough" {
+			workers = 28
+		}
+	}
 	drv.Main(&drv.Prop{
 		ID:      "C12",
 		Gen:     gen,
 		Run:     run,
 		Class:   class,
-		Workers: 8,
+		Workers: workers,
 		Timeout: 60 * time.Second,
-		Rule: "scripted scenarios (startup once / const / instance_step / composites; shared and per-instance RPS; ammo exhaustion, RPS end, run cancel and gun " +
-			"creation failure before, inside and after the startup window) plus scenarios drawn from one PRNG whose startup tokens are multiples of 1 s and whose " +
-			"cause is placed 500 ms away from every token. non-trivial = the engine ran; distinct = distinct input line",
+		Rule: "scripted scenarios (startup once / const / instance_step / composites / empty; shared and per-instance RPS; ammo exhaustion, RPS end, run cancel and gun " +
+			"creation failure before, inside and after the startup window, during the first Wait) plus scenarios drawn from one PRNG: profiles whose tokens are multiples " +
+			"of 1 s with the cause placed 500 ms away from every token, and free profiles (any spacing, up to 30 instances) with the cause anywhere; thorough adds the full " +
+			"grid of 12 profile shapes x 6 causes x 4 positions and 40 bursts of up to 200 instances. non-trivial = the engine ran; distinct = distinct input line",
 	})
 }
